@@ -14,3 +14,24 @@ package telemetry
 //@   modifies nothing
 //@ func CalculateDuration
 //@   modifies nothing
+
+// The no-op tracer runs the function it is given exactly once and hands back its result; the wrappers
+// return the function they are given.
+//@ func (*NoOpTracer).CaptureInvokeSegment
+//@   applies criticalFunction
+//@   modifies nothing
+//@ func (*NoOpTracer).CaptureInitSubsegment
+//@   applies criticalFunction
+//@   modifies nothing
+//@ func (*NoOpTracer).CaptureInvokeSubsegment
+//@   applies criticalFunction
+//@   modifies nothing
+//@ func (*NoOpTracer).CaptureOverheadSubsegment
+//@   applies criticalFunction
+//@   modifies nothing
+//@ func (*NoOpTracer).WithErrorCause
+//@   returnsparam criticalFunction
+//@   modifies nothing
+//@ func (*NoOpTracer).WithError
+//@   returnsparam criticalFunction
+//@   modifies nothing
